@@ -693,7 +693,13 @@ func (p *connPool) sendRequest(ctx context.Context, req Request, state connPoolS
 		if err != nil {
 			return reject(err)
 		}
-		brokerID = r.(*findcoordinator.Response).NodeID
+		coordinator := r.(*findcoordinator.Response)
+		if coordinator.ErrorCode != 0 {
+			// Without a coordinator there is no broker to send the request
+			// to; sending it to an arbitrary one can only fail.
+			return reject(Error(coordinator.ErrorCode))
+		}
+		brokerID = coordinator.NodeID
 	case protocol.TransactionalMessage:
 		p := p.sendRequest(ctx, &findcoordinator.Request{
 			Key:     m.Transaction(),
@@ -703,7 +709,11 @@ func (p *connPool) sendRequest(ctx context.Context, req Request, state connPoolS
 		if err != nil {
 			return reject(err)
 		}
-		brokerID = r.(*findcoordinator.Response).NodeID
+		coordinator := r.(*findcoordinator.Response)
+		if coordinator.ErrorCode != 0 {
+			return reject(Error(coordinator.ErrorCode))
+		}
+		brokerID = coordinator.NodeID
 	}
 
 	var c *conn
